@@ -604,6 +604,7 @@ def ieee_range(rec):
     cases += [(cls, offset, pad) for cls in ('GaussianFilter', 'GaussianKDEFilter', 'GaussianMixtureFilter') for offset in (float(2 ** 20), float(2 ** 24)) for pad in (False, True)]
     cases += [(cls, 'tiny-unit', pad) for cls in ('GaussianFilter', 'GaussianKDEFilter', 'GaussianMixtureFilter') for pad in (False, True)]
     cases += [(cls, 'large', False) for cls in ('GaussianKDEFilter', 'LogNormalKDEFilter')]
+    cases += [(cls, 'memory-layout', pad) for cls in ('GaussianFilter', 'LogNormalFilter', 'GaussianKDEFilter', 'LogNormalKDEFilter', 'GaussianMixtureFilter') for pad in (False, True)]
 
     def one(case):
         cls, outlier, pad = case
@@ -617,6 +618,28 @@ def ieee_range(rec):
         if pad:
             y = np.concatenate([y, np.full((1, 1, 3), np.nan)], axis=0)
             y[0, 0, 0] = np.nan
+        if outlier == 'memory-layout':
+            # the result is a function of the *values* of the simulated measurements, not of the memory layout of the array that holds them
+            # (Fortran-ordered arrays, transposed views and strided slices arise from np.moveaxis / fancy indexing upstream)
+            x = 5.0 + 0.5 * rng.normal(size=(8, 2, 3))
+            y = 5.0 + 0.5 * rng.normal(size=(4, 2, 3))
+            if cls.startswith('LogNormal'):
+                x, y = np.exp(0.2 * (x - 5.0)), np.exp(0.2 * (y - 5.0))
+            if pad:
+                y[0, 0, 0] = np.nan
+            flt = make_filter(real, cls, y)
+            ref_v = float(flt.compute_log_likelihood(x.copy()))
+            ref_g = np.asarray(flt.compute_sensitivities(x.copy())[1], dtype=float)
+            big = np.zeros((16, 2, 6))
+            big[::2, :, ::2] = x
+            variants = {'Fortran-ordered copy': np.asfortranarray(x), 'transposed view of a (n_times, n_observables, n_sim) array': np.ascontiguousarray(x.transpose(2, 1, 0)).transpose(2, 1, 0),
+                        'strided slice of a larger array': big[::2, :, ::2]}
+            for nm_, xv in variants.items():
+                v_ = float(flt.compute_log_likelihood(xv))
+                g_ = np.asarray(flt.compute_sensitivities(xv)[1], dtype=float)
+                if not (abs(v_ - ref_v) <= 1e-9 * max(1.0, abs(ref_v)) and g_.shape == ref_g.shape and np.allclose(g_, ref_g, rtol=1e-8, atol=1e-10)):
+                    return '%s: the same simulated values given as a %s give the value %r (C-ordered array: %r); sensitivities equal: %s' % (cls, nm_, v_, ref_v, bool(g_.shape == ref_g.shape and np.allclose(g_, ref_g)))
+            return None
         if outlier == 'tiny-unit':
             # the same data expressed in a unit that makes the numbers tiny (nanomolar concentrations in mol / L): the estimators carry the unit of
             # the observable, so nothing in them may be absolute
